@@ -91,9 +91,8 @@ def run_group(acc, exe, variant, g, tier):
     try:
         while True:
             os.ftruncate(fd, 0)
-            r = subprocess.run([exe, group, str(a), str(b), str(maxlen), str(start), '1' if tier == 'thorough' else '0'],
-                               close_fds=False, stdin=subprocess.DEVNULL, stdout=subprocess.PIPE, stderr=subprocess.PIPE,
-                               env=env, text=True, errors='replace', preexec_fn=lambda: os.dup2(fd, 3))
+            r = core.run_beating([exe, group, str(a), str(b), str(maxlen), str(start), '1' if tier == 'thorough' else '0'],
+                                 close_fds=False, env=env, preexec_fn=lambda: os.dup2(fd, 3))
             m = re.search(r'DONE (\d+) (\d+)', r.stdout or '')
             if r.returncode == 0 and m:
                 total = int(m.group(1))
